@@ -698,12 +698,14 @@ class Fn:
             self.emit(base, f"let mut {lname(v)} : PVal := PVal.none")
         decls = self.lines
         self.lines = decls + stmts
+        return self.head(sig) + "\n" + "\n".join(self.lines)
+
+    def head(self, sig: str) -> str:
+        """(C17) the first line(s) of the definition; a subclass (FN_CLASS) gives a translation another result type"""
         if self.spec.recursive:
-            head = (f"def {self.spec.lean} (G : Globals) (fuel0 : Nat) {sig} : PyM PVal :=\n"
+            return (f"def {self.spec.lean} (G : Globals) (fuel0 : Nat) {sig} : PyM PVal :=\n"
                     f"  match fuel0 with\n  | 0 => throw PyErr.fuel\n  | fuel + 1 => do")
-        else:
-            head = f"def {self.spec.lean} (G : Globals) {sig} : PyM PVal := do"
-        return head + "\n" + "\n".join(self.lines)
+        return f"def {self.spec.lean} (G : Globals) {sig} : PyM PVal := do"
 
     def terminal(self, s: ast.stmt) -> bool:
         if isinstance(s, (ast.Return, ast.Raise)):
@@ -769,6 +771,13 @@ METHOD_OWNER = {"as_string": ("HTML",)}
 
 def find(mod: ast.Module, qual: str):
     parts = qual.split(".")
+    if len(parts) == 2 and parts[1] == "<inner>":
+        # (C17) `f.<inner>`: the one function defined directly inside the module-level function `f`, whatever its name
+        for n in mod.body:
+            if isinstance(n, ast.FunctionDef) and n.name == parts[0]:
+                inner = [m for m in n.body if isinstance(m, ast.FunctionDef)]
+                return (inner[0], None) if len(inner) == 1 else (None, None)
+        return None, None
     if len(parts) == 1:
         for n in mod.body:
             if isinstance(n, ast.FunctionDef) and n.name == parts[0]:
@@ -783,6 +792,8 @@ def find(mod: ast.Module, qual: str):
 
 
 def stub(spec: FnSpec, nparams: int) -> str:
+    if spec.lean in STUBS:          # (C17) a translation with another type has its own stub
+        return STUBS[spec.lean](spec, nparams)
     sig = " ".join(f"(_a{i} : PVal)" for i in range(nparams))
     fuel = " (_fuel : Nat)" if (spec.recursive or spec.group) else ""
     return f"def {spec.lean} (_G : Globals){fuel} {sig} : PyM PVal := throw PyErr.unsupported"
@@ -796,7 +807,7 @@ def _signature(spec: FnSpec, mods: dict, known: dict) -> "Fn":
     node, cls = find(mods[spec.file], spec.qual)
     if node is None:
         raise Untranslatable("function not found in the source")
-    return Fn(spec, node, cls, known)
+    return FN_CLASS.get(spec.lean, Fn)(spec, node, cls, known)      # (C17) FN_CLASS
 
 
 def _info_of(fn: "Fn", text: str = "") -> FnInfo:
@@ -866,7 +877,7 @@ def generate(write: bool = True) -> dict:
     out.append("  match f, a with")
     for lean_name, info in known.items():
         n = len(info.all_params) if info.available else None
-        if n is None:
+        if n is None or lean_name in NO_RUN:      # (C17) NO_RUN: not of type `PyM PVal`; run by the area's own op
             continue
         vs = [f"x{i}" for i in range(n)]
         fuel = " 100000" if (info.spec.recursive or info.spec.group) else ""
@@ -893,6 +904,11 @@ ARITY = {"html_escape": 2, "HTML_as_string": 1, "HTML_add": 2, "HTML_radd": 2, "
 
 #: extra Lean modules the generated file imports (Py/Prim<Area>.lean of the area plug-ins)
 IMPORTS: list[str] = []
+#: (C17) per Lean name: a subclass of `Fn` that translates that function (other result type: overrides `head`),
+#: the text of its stub, and the translations the generic `src` op cannot run
+FN_CLASS: dict = {}
+STUBS: dict = {}
+NO_RUN: set = set()
 #: expression / statement hooks of the area plug-ins: called first; return a Lean term (or True for a handled statement)
 #: or None to decline
 EXPR_HOOKS: list = []
